@@ -209,7 +209,7 @@ class C16(Prop):
             'Oracle: structure-aware token mutation (delete/duplicate/swap tokens, attributes, group elements; empty or '
             'splice groups between seeds; empty / shorten `<..>` lists; insert stray arguments), 1-3 mutations each, of a seed corpus = every '
             'derive_ex item of the test-suite, compile_fail cases, documentation and README, a list of unusual-but-parseable spellings (`impl Add<> for X`, `struct X<>()`, `where` without predicates, trailing commas, non-struct items, ...) plus generator output, as '
-            'attribute- and derive-macro input; non-trivial = mutant differs from its seed; distinct by input text')
+            'attribute- and derive-macro input; a sample (all seeds + mutants with a parseable item) is also expanded by the REAL compiler and its diagnostics searched for a proc-macro panic; non-trivial = mutant differs from its seed; distinct by input text')
     assumptions = ['panics inside syn/structmeta/quote are observable only by running them: covered by the mutation run (a test), not by the theorem']
 
     def n(self, tier):
@@ -318,8 +318,69 @@ class C16(Prop):
                       'error-only' if any(p[0] == 'ERR' for p in parts) else 'other'] += 1
                 if len(samples) < 3 and metas[i] != 'seed' and i % 97 == 0:
                     samples.append(dict(input=text[:300], mutation=metas[i], outcome=[p[0] for p in parts][:6]))
-        return dict(evaluations=len(inputs), validated=validated, failures=failures, samples=samples,
-                    seeds=len(tok_seeds), mutation_kinds=dict(kinds), outcome_stats=dict(stats))
+        # the same through the REAL compiler for a sample (seeds first): proc_macro spans behave differently there
+        # (joins fail, hygiene contexts exist), so a panic may only happen in rustc
+        from .. import l2
+        from concurrent.futures import ThreadPoolExecutor
+        valid = [i for i, (m, a, it) in enumerate(inputs)
+                 if (lambda e: e is not None and e[3] == '1')(next((p for p in out.get(str(i), []) if p[0] == 'END'), None))]
+        n_seed = len(tok_seeds)
+        seeds_valid = [i for i in valid if i < n_seed]
+        rest = [i for i in valid if i >= n_seed]
+        pick = seeds_valid + rest[::max(1, len(rest) // (500 if tier == 'quick' else 6000))]
+        rmods, vmods = [], []
+        for i in pick:
+            m, a, it = inputs[i]
+            head = ('#[::derive_ex::derive_ex(%s)]\n' % a) if m == 'A' else '#[derive(::derive_ex::Ex)]\n'
+            rmods.append(l2.Module(i, head + it + '\npub fn run() {}', (m, a, it)))
+            if i < n_seed:
+                # the unmutated seeds once more, declared THROUGH a macro_rules! macro (two hygiene contexts in one request):
+                # the expansion must stay as well-formed as it is when the item is written out directly
+                vmods.append(l2.Module(i, l2.via_macro(head, it) + 'pub fn run() {}', (m, a, it)))
+        nb = 16
+        l2.ensure_macro()
+        with ThreadPoolExecutor(max_workers=R.NPROC) as ex:
+            futs = [ex.submit(l2.first_round_diags, 'c16r_%d' % k, rmods[k::nb], '',
+                              '#![allow(warnings)]\n') for k in range(nb)]
+            vfuts = [ex.submit(l2.first_round_diags, 'c16v_%d' % k,
+                               [mo for mo in rmods[k::nb] if mo.cid >= n_seed] + vmods[k::nb], '',
+                               '#![allow(warnings)]\n') for k in range(nb)]
+            rdiags = [x for f in futs for x in f.result()]
+            vdiags = [x for f in vfuts for x in f.result()]
+        for k in range(nb):
+            l2.cleanup('c16r_%d' % k)
+            l2.cleanup('c16v_%d' % k)
+        rustc_panics = 0
+        for owner, level, message in rdiags + vdiags:
+            if 'panicked' in message:
+                rustc_panics += 1
+                m, a, it = owner.meta if owner is not None else ('?', '', '')
+                text = ('#[derive_ex(%s)] %s' % (a, it)) if m == 'A' else '#[derive(Ex)] ' + it
+                failures.append(dict(**{'class': 'expansion-panic-in-rustc', 'mode': 'expand'}, input=text,
+                                     expected='no panic in the real compiler either', observed=message[:300]))
+        # errors the compiler reports for the macro-declared form only (same crate otherwise, same compiler phase)
+        def errs(diags):
+            d = collections.defaultdict(collections.Counter)
+            for owner, level, message in diags:
+                if owner is not None and level == 'error' and 'aborting due to' not in message:
+                    d[owner.cid][message] += 1
+            return d
+        de, ve = errs(rdiags), errs(vdiags)
+        via_only = 0
+        for mo in vmods:
+            extra = ve.get(mo.cid, collections.Counter()) - de.get(mo.cid, collections.Counter())
+            if extra:
+                via_only += 1
+                m, a, it = mo.meta
+                text = ('#[derive_ex(%s)] %s' % (a, it)) if m == 'A' else '#[derive(Ex)] ' + it
+                failures.append(dict(**{'class': 'expansion-ill-formed-when-declared-through-macro_rules', 'mode': 'expand'},
+                                     input=text, expected='the errors rustc reports for the directly written item, no more',
+                                     observed=sorted(extra)[:3]))
+        validated += (len(rmods) + len(vmods)) if not (rustc_panics or via_only) else 0
+        return dict(evaluations=len(inputs) + len(rmods) + len(vmods), validated=validated, failures=failures, samples=samples,
+                    seeds=len(tok_seeds), mutation_kinds=dict(kinds), outcome_stats=dict(stats),
+                    compiled_by_rustc=len(rmods) + len(vmods), rustc_panics=rustc_panics,
+                    declared_through_macro_rules=len(vmods), errors_only_through_macro_rules=via_only)
 
 
 PROP = C16()
